@@ -6,6 +6,22 @@ R = {
    text="TLC explores Revocation.tla (accumulator chain, witnesses, update objects with product memo; Revoke/Issue/MakeUpdate/Apply/Prepend) exhaustively within the bound and checks the C09 invariants and action properties; every distinct Apply/Prepend transition of the bound is replayed on real objects by state construction and compared with the spec's post-state, and long random histories recorded from the real code are validated step by step by RevocationTrace.tla.",
    note="Toy moduli (64-96 bit); bounded histories (quick: 3 revocations, 2 witnesses, 2 update objects, 3 applications; replayed transitions: all pre-states up to 3/5 revocations); ECDSA/SHA-256 trusted; harness projection (math/big) trusted.",
    tech="TLA+ state machine + TLC exhaustive model checking; spec->code transition replay by state construction; code->spec trace validation"),
+ "C01": dict(engine="Disclosure.tla", design="5/C01, 13",
+   text="TLC explores Disclosure.tla, a symbolic generic-group model of ProofD verification in which challenges are indeterminates, over every proof a prover can reach from the honest one by up to 2 (thorough 3) deviations, and checks Authentic; every emitted abstract proof is assembled for real by a cheating prover inside the harness (math/big, knows the credential and the group order) and submitted to ProofD.Verify and ProofList.Verify, acceptance being judged on the concrete proof; exact response-size boundaries go through ProofD.VerifyWithChallenge.",
+   note="Idealised algebra in the model (strong RSA, SHA-256 not attacked); 2-3 attributes and four value classes in the model; fixed 1024-bit keys in the replay; HashCommit trusted here (C15).",
+   tech="TLA+ symbolic adversary model + TLC exhaustive model checking; generated adversarial proofs replayed on the real verifier"),
+ "C04": dict(engine="Disclosure.tla", design="5/C04, 13",
+   text="TLC enumerates every credential over four value classes with up to 4 (thorough 5) attributes and every disclosure subset in the honest fragment of Disclosure.tla and checks HonestComplete; for every emitted case the library's own prover is run for both session kinds and the harness checks verification, exact key sets and values, absence of hidden values from the serialised proof and the timestamp contribution, and rejection for the other session kind.",
+   note="Syntactic minimality only (no statistical hiding); 1024-bit keys; byte search only for hidden values of at least 64 bits.",
+   tech="TLA+ specification of the honest prover + TLC exhaustive enumeration; every case replayed through the real prover and verifier"),
+ "C15": dict(engine="FiatShamirDER.tla", design="5/C15, 13",
+   text="FiatShamirDER.tla defines the DER pre-image of the challenge hash from X.690 on byte sequences; TLC checks injectivity and prefix-freeness on a pair state machine, emits expected pre-images for a boundary family of lists, and a trace spec turns inputs recorded from real proofs into the expected pre-image; the harness compares sha256 of every pre-image with HashCommit, GetHashNumber with its limb schedule, IntHashSha256 with sha256, and the challenge inside real proofs with the specification's pre-image.",
+   note="SHA-256 trusted (stdlib); injectivity domain bounded (lists <= 3 over 8-13 values, elements up to 257 bytes); large pre-images emitted as segments.",
+   tech="TLA+ transcription of the encoding evaluated by TLC (injectivity by exhaustive model checking); generated tables and recorded real-proof inputs compared with the real code"),
+ "C18": dict(engine="Serial.tla", design="5/C18, 13",
+   text="Serial.tla has four small machines (file modes of WriteToFile as the syscalls issued, message types with optional parts and unserialised fields, key-document grammar with mutations, big-integer boundary classes); TLC checks PrivateStaysPrivate, MeaningPreserved and EverythingDecodes and emits every case; the harness executes each against the real code (temp dirs and os.Stat, real messages round-tripped and verified again, mutated key XML fed to every constructor, integers through all encodings).",
+   note="Runs as root (permission checks do not apply); 1024-bit keys; mutations are single-element; D21 (negative K not serialisable) is a known finding.",
+   tech="TLA+ state machines checked with TLC; every generated case replayed on the real code"),
  "C10": dict(engine="RevAuth.tla", design="5/C10, 13",
    text="TLC explores every update message an adversary can assemble from a genuine one by up to 2 mutations plus JSON/CBOR transport in RevAuth.tla and checks that the transcribed acceptance predicates imply authenticity; every single-mutation message (thorough: plus a seeded sample of double mutations) is materialised byte for byte and fed to Update.Verify, Witness.Update, EventList.Verify, Update.Prepend and Hash.Equal in memory and after real JSON/CBOR round trips.",
    note="Hash injective and signatures unforgeable in the model; chains of 3 events, 2 chains under one key; toy moduli; the unserialised SignedAccumulator.Accumulator memo is clear on received messages.",
